@@ -70,7 +70,8 @@ keep every raft-bearing segment while some group has recorded no truncation segm
 only removes segments at or below the manifest log pointer; a failed memtable flush is retried in
 place so that the log pointer never passes an unflushed memtable; `OpenWALStorage` seeds the
 truncation point).  For *every* operation list — puts, raft
-appends / hard states / truncations of either group, memtable rotations with the flush stalled
+appends (at the end of the log or rewriting its tail, as a new leader does) / hard states /
+truncations of either group, memtable rotations with the flush stalled
 or not, failed flushes, gate changes, watchdog passes, crashes + reopen, in any order and
 number — in the state reached, every WAL segment that holds a put contained in no installed
 table, or a raft entry above its group's truncation point, still exists. -/
@@ -95,6 +96,23 @@ example : neededKept (run SCfg.good exampleOps) = true ∧
     ((run SCfg.good exampleOps).segs.filter (fun sg => !sg.present)).map (·.id) = [1, 2, 3] ∧
     get (run SCfg.good exampleOps) 4 = some 11 ∧
     (run SCfg.good exampleOps).grps.map (fun g => (g.openOK, g.last, g.trunc)) = [(true, 8, 8), (true, 3, 3)] := by
+  decide
+
+/-- non-vacuity with a log conflict (corpus/C36/overwrite-tail-then-first-compaction.ops): the tail
+4..5 of the batch 1..5 is rewritten into a later segment; the group's first compaction targets
+index 2 inside the surviving prefix, the recorded truncation segment is segment 1, and after
+later compactions / watchdog passes / a crash everything needed is still there and the group
+opens with its whole log -/
+def overwriteOps : List Op :=
+  [.rapp 1 5, .put 1, .rotate, .rover 1 4 3, .rhs 1, .rtrunc 1 2, .rotate, .rhs 1, .watchdog, .crash,
+   .rapp 2 1, .rtrunc 2 1, .rtrunc 1 5, .rotate, .rhs 1, .rhs 2, .watchdog, .crash]
+
+example : neededKept (run SCfg.good overwriteOps) = true ∧
+    segIds (run SCfg.good (overwriteOps.take 10)) = [1, 2, 3] ∧
+    (run SCfg.good (overwriteOps.take 6)).grps.map (fun g => (g.segIndex, g.spans)) =
+      [(1, [(3, 3, 1), (4, 6, 2)]), (0, [])] ∧
+    (run SCfg.good overwriteOps).grps.map (fun g => (g.openOK, g.last, g.trunc)) = [(true, 6, 5), (true, 1, 1)] ∧
+    segIds (run SCfg.good overwriteOps) = [2, 3, 4] := by
   decide
 
 /-- corpus/C36/finding-untruncated-raft-removed.ops -/
